@@ -315,7 +315,7 @@ func init() {
 				// heights in tenths: z0 + (z1 - z0) is not z1 for about a quarter of such pairs
 				z0 = float64(rng.Intn(41)-20) / 10
 				z1 = float64(rng.Intn(41)-20) / 10
-				for z1 <= z0 {
+				for z1 < z0+0.05 { // (at least a tenth apart: sums of tenths are not exact)
 					z1 += float64(1+rng.Intn(30)) / 10
 				}
 			}
